@@ -14,7 +14,7 @@ TRUSTED = [
     "totality theorems: valve::query (and through it every Valve game wrapper), The Ship, Battalion 1944, FFOW, quake one/two/three, unreal2, gamespy one/two/three (and the variables-only query), JC2-MP, Savage 2, Mindustry, every Minecraft entry point (serde_json::from_str as an oracle that answers); all of them also run through the malformed streams (model = implementation, no panic / abort / hang). Eco / Epic / Minetest (HTTP) are not modelled",
 ]
 RULE = ("malformed stream over Spec-generated valid scripts: truncation at every/ random offsets, extreme values (00, ff, 7f, 80, 16/32-bit extremes) written at random offsets, "
-        "dropped / duplicated / swapped / empty / oversized (up to 64 KiB) datagrams, timeouts, deleted terminators, bit flips, random packets; all engines and gather settings, retries 0..2; "
+        "GameSpy 3 packets with hostile numbers (beyond the last, repeated, several flagged last), Minecraft Java framing with packet / id / string length VarInts at their extremes (negative, overlong), dropped / duplicated / swapped / empty / oversized (up to 64 KiB) datagrams, timeouts, deleted terminators, bit flips, random packets; all engines and gather settings, retries 0..2; "
         "non-trivial = the model's outcome is an error other than a receive timeout, or Ok after a mutation; distinct by case bytes")
 UNCOVERED = ["valve master server (its malformed stream is part of C16)", "eco and minetest (HTTP)"]
 GAME_NAMES = ["ffow", "savage2", "jc2m", "mindustry", "theship", "battalion1944"]
